@@ -344,7 +344,7 @@ func init() {
 			"only the first LENGTH bits of the output are compared; bit lengths are within 0..8*len(buffer)",
 			"crypto/aes is the trusted AES block primitive",
 		},
-		Oracles: map[string]func(*core.Ctx, *core.Case){"cipher": c06Cipher, "keystream": c06Keystream, "cipher-seq": c06CipherSeq, "concurrent": c06Concurrent, "many-keys": c06ManyKeys, "cold-concurrent": coldConcurrent},
+		Oracles: map[string]func(*core.Ctx, *core.Case){"cold-entries": coldEntries, "cipher": c06Cipher, "keystream": c06Keystream, "cipher-seq": c06CipherSeq, "concurrent": c06Concurrent, "many-keys": c06ManyKeys, "cold-concurrent": coldConcurrent},
 		Floors: func(tier string, cov map[string]map[string]int64, cnt map[string]int64) []string {
 			var f []string
 			if cnt["reference_kat_vectors_passed"] == 0 {
@@ -487,6 +487,7 @@ func init() {
 		us = append(us, cryptoConcurrentUnits("concurrent")...)
 		us = append(us, zeroRuleUnit(false), cryptoManyKeysUnit())
 		us = append(us, coldUnits(tier, "security", "cipher1", "cipher2", "cipher3")...)
+		us = append(us, coldEntryUnits(tier, "security", "cipher")...)
 		return us
 	}
 	core.Register(p)
@@ -595,7 +596,7 @@ func init() {
 			"the MAC of a zero-length message is the value the specifications' formulae give (f9: D=1, no message block; CMAC over the 8-octet header; EIA3: z[0] xor z[32])",
 			"bit lengths are within 0..8*len(buffer); the message is the first LENGTH bits of the buffer",
 		},
-		Oracles: map[string]func(*core.Ctx, *core.Case){"mac": c07Mac, "mac-seq": c07MacSeq, "concurrent": c07Concurrent, "many-keys": c07ManyKeys, "cold-concurrent": coldConcurrent},
+		Oracles: map[string]func(*core.Ctx, *core.Case){"cold-entries": coldEntries, "mac": c07Mac, "mac-seq": c07MacSeq, "concurrent": c07Concurrent, "many-keys": c07ManyKeys, "cold-concurrent": coldConcurrent},
 		Floors: func(tier string, cov map[string]map[string]int64, cnt map[string]int64) []string {
 			var f []string
 			if cnt["reference_kat_vectors_passed"] == 0 {
@@ -730,6 +731,7 @@ func init() {
 		us = append(us, cryptoConcurrentUnits("concurrent")...)
 		us = append(us, zeroRuleUnit(true), cryptoManyKeysUnit())
 		us = append(us, coldUnits(tier, "security", "mac1", "mac2", "mac3", "mac0")...)
+		us = append(us, coldEntryUnits(tier, "security", "mac")...)
 		return us
 	}
 	core.Register(p)
@@ -1028,7 +1030,7 @@ func init() {
 		Interleave:  []string{"laws", "point"},
 		Rule:        "laws: for valid parameters (alg 0..3, all 64 bearer×direction values) and payload lengths 0..300 plus a few large: length preservation, involution, prefix stability at word/block boundaries, keystream independence of the plaintext, determinism, NULL algorithm, 4-octet MAC, message untouched. grid: quick alg 0..7 × bearer 0..255 × direction 0..3 (thorough: all 256×256×256) × 3 payload lengths through NASEncrypt and NASMacCalculate: invalid ⇒ error and untouched payload, valid ⇒ nil error; nil payload for every algorithm. Non-trivial = valid parameters with non-empty payload, or an invalid combination; distinct by the parameter tuple.",
 		Assumptions: []string{"key arrays are passed by value, so key modification is unobservable by construction"},
-		Oracles:     map[string]func(*core.Ctx, *core.Case){"laws": c08Laws, "grid": c08Grid, "point": c08Point, "concurrent": c06Concurrent, "cold-concurrent": coldConcurrent},
+		Oracles:     map[string]func(*core.Ctx, *core.Case){"cold-entries": coldEntries, "laws": c08Laws, "grid": c08Grid, "point": c08Point, "concurrent": c06Concurrent, "concurrent-neighbours": cryptoNeighbours, "cold-concurrent": coldConcurrent},
 		Exhaustive: func(tier string) (bool, string) {
 			if tier == "thorough" {
 				return true, "the validation grid alg×bearer×direction is enumerated completely (2^24 points × 3 payload lengths × 2 functions); keys, counts and payloads are sampled"
@@ -1084,6 +1086,7 @@ func init() {
 		// laws under concurrency: 8 goroutines ciphering under ONE key (uplink and downlink of
 		// one context) or two, each result compared with the reference
 		us = append(us, coldUnits(tier, "security", "cipher1", "mac2", "cipher3", "mac1", "cipher2", "mac3", "mac0")...)
+		us = append(us, cryptoNeighbourUnit())
 		us = append(us, core.Unit{Name: "concurrent-same-key", Weight: 40, Run: func(c *core.Ctx) {
 			for alg := 1; alg <= 3; alg++ {
 				for _, nk := range []int64{1, 2} {
@@ -1161,6 +1164,7 @@ func init() {
 				}})
 			}
 		}
+		us = append(us, coldEntryUnits(tier, "security", "cipher", "mac")...)
 		return us
 	}
 	core.Register(p)
